@@ -38,6 +38,21 @@ def sensitivity():
             main = r.get(r["pid"], {})
             key = (main.get("violations") or ["- NOT DETECTED -"])[0] if "error" not in r else "ERROR"
             out.append(f"| {r['id']} | {r['pid']} | {needs} | `{key}` |")
+    p = os.path.join(VERIF, "mutants/results-benign.json")
+    if os.path.exists(p):
+        res = json.load(open(p))["results"]
+        n = sum(1 for r in res if r.get("silent"))
+        out.append("")
+        out.append(f"**Benign (behaviour-preserving) changes** ({n}/{len(res)} leave all ten quick checks silent, i.e. exit 0):\n")
+        out.append("| change | what it does (author's note, abridged) | checks that raised an alarm |")
+        out.append("|---|---|---|")
+        for r in res:
+            note = ""
+            np_ = os.path.join(VERIF, "benign", r["id"], "notes.md")
+            if os.path.exists(np_):
+                note = " ".join(open(np_).read().split())[:240]
+            bad = [pid for pid, c in r.get("checks", {}).items() if c["exit"] != 0]
+            out.append(f"| {r['id']} | {note} | {', '.join(bad) or 'none'} |")
     return "\n".join(out)
 
 
